@@ -43,9 +43,11 @@ def run_one(prop, spec):
     """plain evaluation without Hypothesis: returns None or (bucket, msg)"""
     ctx = Ctx(prop.ID, "replay", 0)
     try:
-        prop.check(spec, ctx)
+        core.with_case_watchdog(lambda: prop.check(spec, ctx))
     except Violation as v:
         return v.bucket, v.msg
+    except core.StopSearch:
+        return "nontermination", "watchdog expired again (hangs were already confirmed in this run)"
     return None
 
 
